@@ -65,6 +65,22 @@ Definition add_to (n : string) (t : term) (s : sector) : sector * option err :=
 
 Definition is_zero_rhs (r : string) : bool := String.eqb r "" || String.eqb r "0.0".
 
+(** the ledger part of [AddCashFlow]: the term goes into F, and into INC when it is income and
+    not excluded for this sector *)
+Definition book (tm : term) (is_income : bool) (s : sector) : sector * option err :=
+  match add_to "F" tm s with
+  | (s1, Some x) => (s1, Some x)
+  | (s1, None) =>
+      if is_income && negb (mem (text tm) (excl s1)) then add_to "INC" tm s1 else (s1, None)
+  end.
+
+(** the definition part: an existing variable is redefined only when it renders '' or '0.0' *)
+Definition define (nm ex : string) (s : sector) : sector * option err :=
+  match lookup nm (block s) with
+  | Some q => if is_zero_rhs (render_rhs (terms q)) then set_rhs nm ex s else (s, None)
+  | None => add_variable nm "" ex s
+  end.
+
 Definition add_cash_flow (t0 : string) (e : option string) (is_income : bool) (s : sector)
   : sector * option err :=
   let t := strip t0 in
@@ -72,23 +88,12 @@ Definition add_cash_flow (t0 : string) (e : option string) (is_income : bool) (s
   else match parse_term t with
        | Err x => (s, Some x)
        | Ok tm =>
-           match add_to "F" tm s with
-           | (s1, Some x) => (s1, Some x)
-           | (s1, None) =>
-               let inc := is_income && negb (mem (text tm) (excl s1)) in
-               match (if inc then add_to "INC" tm s1 else (s1, None)) with
-               | (s2, Some x) => (s2, Some x)
-               | (s2, None) =>
-                   match e with
-                   | None => (s2, None)
-                   | Some ex =>
-                       match lookup (text tm) (block s2) with
-                       | Some q =>
-                           if is_zero_rhs (render_rhs (terms q)) then set_rhs (text tm) ex s2
-                           else (s2, None)
-                       | None => add_variable (text tm) "" ex s2
-                       end
-                   end
+           match book tm is_income s with
+           | (s2, Some x) => (s2, Some x)
+           | (s2, None) =>
+               match e with
+               | None => (s2, None)
+               | Some ex => define (text tm) ex s2
                end
            end
        end.
